@@ -4,6 +4,7 @@ CONSTANTS
   SrcLen = 0
   Hint = "exact"
   PanicAt = 0
+  Revive = 0
   MaxOps = 0
   OwnerOps = 0
   Sizes = {1}
